@@ -312,7 +312,36 @@ def residual_case(draw):
     op = draw(gen.tt_spec(max_order=4, kind='operator', max_rank=3))
     x = draw(gen.tt_spec(rows=op['cols'], kind='vector', max_rank=3))
     b = draw(gen.tt_spec(rows=op['rows'], kind='vector', max_rank=3))
-    return {'op': op, 'x': x, 'b': b, 'consistent_rhs': draw(st.booleans()), 'scale_exp': draw(st.sampled_from([0, 0, 0, -9, -14, 8]))}
+    return {'op': op, 'x': x, 'b': b, 'consistent_rhs': draw(st.booleans()), 'scale_exp': draw(st.sampled_from([0, 0, 0, -9, -14, 8])),
+            # x (nearly) solves the system -- what the function is for (monitoring a solver): b := A x + delta * b, assembled by the
+            # harness from the cores (product and block sum written out here)
+            'near_solution': draw(st.sampled_from([None, None, None, 1e-9, 1e-10, 1e-12, 0.0]))}
+
+
+def _product_cores(a_cores, x_cores):
+    out = []
+    for a, x in zip(a_cores, x_cores):
+        p = np.einsum('amnb,cnd->acmbd', a, x[:, :, 0, :])
+        out.append(p.reshape(a.shape[0] * x.shape[0], a.shape[1], 1, a.shape[3] * x.shape[3]))
+    return out
+
+
+def _sum_cores(p_cores, q_cores):
+    d = len(p_cores)
+    if d == 1:
+        return [p_cores[0] + q_cores[0]]
+    out = []
+    for i, (p, q) in enumerate(zip(p_cores, q_cores)):
+        if i == 0:
+            c = np.concatenate([p, q], axis=3)
+        elif i == d - 1:
+            c = np.concatenate([p, q], axis=0)
+        else:
+            c = np.zeros((p.shape[0] + q.shape[0], p.shape[1], 1, p.shape[3] + q.shape[3]), dtype=np.result_type(p, q))
+            c[:p.shape[0], :, :, :p.shape[3]] = p
+            c[p.shape[0]:, :, :, p.shape[3]:] = q
+        out.append(c)
+    return out
 
 
 def body_residual(case):
@@ -324,6 +353,17 @@ def body_residual(case):
         f = 10.0 ** case['scale_exp']
         x = build.tt_from([c * f for c in x.cores])
         b = build.tt_from([c * f for c in b.cores])
+    near = case.get('near_solution')
+    if near is not None and not case['b'].get('int_dtype'):
+        ax = _product_cores(op.cores, x.cores)
+        nb = max(float(np.linalg.norm(dense.matrix(b.cores))), 1e-300)
+        nax = float(np.linalg.norm(dense.matrix(ax)))
+        if near == 0.0:
+            b = build.tt_from(ax)
+        else:
+            q = [np.array(c, dtype=np.result_type(c, float)) for c in b.cores]
+            q[0] = q[0] * (near * nax / nb)
+            b = build.tt_from(_sum_cores(ax, q))
     A = dense.matrix(op.cores)
     xv = dense.matrix(x.cores).reshape(-1)
     bv = dense.matrix(b.cores).reshape(-1)
@@ -336,6 +376,8 @@ def body_residual(case):
         lab.add('mixed_dtype')
     if case['x']['ranks'] != case['b']['ranks']:
         lab.add('ranks_differ')
+    if near is not None and not case['b'].get('int_dtype'):
+        lab.add('x_nearly_solves')
     return lab
 
 
